@@ -22,7 +22,7 @@ import math
 import re
 from fractions import Fraction
 
-from ..core import Siblings, WholeFloats, Sub, fail, lit, close
+from ..core import Siblings, WholeFloats, Sub, fail, lit, close, scale
 
 V = [-3, -1, 0, 1, 2, 2.5, 4]
 AZ = 'abcdefghijklmnopqrstuvwxyz'
@@ -834,6 +834,80 @@ class CriteriaText(CritBase):
                         yield fn, 'h', [t, MIX[:n]], [pat, cb], vals
 
 
+class Scale(Sub):
+    name = 'c11.scale'
+    rule = ('size ladder (1..13, then around 16, 32, 64, 100, 128, 256, 512, 1000, 1024 [2048, 4096]): the list is a fixed '
+            'permutation of 1..n delivered as a flat host list, as rows of 16, as a range and (n <= 257) as literal arguments '
+            'and as a literal array; 17 statistics and 6 criteria functions against closed forms (n(n+1)/2, (n+1)/2, '
+            '(n^2-1)/12 ...); non-trivial = all')
+    min_cases = 40
+    min_nontrivial = 40
+    min_classes = 3
+
+    def cases(self, tier, unit):
+        for n in scale(tier):
+            for form in ('flat', 'rows', 'range') + (('args', 'array') if n <= 257 else ()):
+                yield [n, form]
+
+    @staticmethod
+    def perm(n):
+        step = next(k for k in (7919, 104729, 13, 11, 7, 5, 3, 2, 1) if math.gcd(k, n) == 1)
+        return [(i * step) % n + 1 for i in range(n)]
+
+    def check(self, env, case):
+        n, form = case
+        items = self.perm(n)
+        vars_, cells = {}, None
+        if form == 'flat':
+            vars_['xs'] = list(items)
+            a = 'xs'
+        elif form == 'rows':
+            vars_['xs'] = [items[i:i + 16] for i in range(0, n, 16)]
+            a = 'xs'
+        elif form == 'range':
+            a = 'A1:A%d' % n
+            cells = {a: [[v] for v in items]}
+        elif form == 'args':
+            a = ','.join(str(v) for v in items)
+        else:
+            a = '{' + ','.join(str(v) for v in items) + '}'
+        env.nt()
+        env.note(form)
+        F = Fraction
+        m = n // 2
+        want = [('SUM(%s)', F(n * (n + 1), 2)), ('COUNT(%s)', n), ('AVERAGE(%s)', F(n + 1, 2)), ('MIN(%s)', 1), ('MAX(%s)', n),
+                ('MEDIAN(%s)', F(n + 1, 2)), ('AVEDEV(%s)', F(n * n - (n % 2), 4 * n)),
+                ('VARP(%s)', F(n * n - 1, 12)), ('VAR.P(%s)', F(n * n - 1, 12)), ('HARMEAN(%s)', F(n) / sum(F(1, i) for i in range(1, n + 1)))]
+        if n >= 2:
+            want += [('VAR(%s)', F(n * (n + 1), 12)), ('VAR.S(%s)', F(n * (n + 1), 12))]
+        if form not in ('args',):
+            want += [('LARGE(%s,1)', n), ('LARGE(%%s,%d)' % n, 1), ('SUMIF(%%s,">%d")' % m, F(n * (n + 1), 2) - F(m * (m + 1), 2)),
+                     ('COUNTIF(%%s,"<=%d")' % m, m), ('COUNTIF(%%s,"%d")' % n, 1), ('MAXIFS(%%s,%%s,"<%d")' % n, n - 1 if n > 1 else 0),
+                     ('SUMIFS(%%s,%%s,">=%d")' % n, n)]
+            if n > m:
+                want.append(('AVERAGEIF(%%s,">%d")' % m, F(n + m + 1, 2)))
+            if n >= 2:
+                want.append(('LARGE(%s,2)', n - 1))
+        out = []
+        for tmpl, w in want:
+            f = tmpl.replace('%s', a)
+            o = env.evo(f, vars_ or None, None, cells)
+            r = number_of(o)
+            if r is None or not close(r, w, rel=1e-9):
+                shown = tmpl.replace('%s', {'flat': 'xs', 'rows': 'xs', 'range': a, 'args': '<1..n permuted>', 'array': '{<1..n permuted>}'}[form])
+                out.append(fail('%s over a permutation of 1..%d (%s) = %r, expected %s' % (shown, n, form, o if len(repr(o)) < 80 else repr(o)[:80], float(w)),
+                                float(w), o if len(repr(o)) < 200 else repr(o)[:200]))
+                if len(out) >= 3:
+                    break
+        return out
+
+
+def number_of(o):
+    if o[0] == 'v' and isinstance(o[1], (int, float)) and not isinstance(o[1], bool):
+        return o[1]
+    return None
+
+
 class CriteriaBrackets(CriteriaText):
     """* and ? are the only wildcards: brackets and ! in a criterion are ordinary characters (a glob library reads
     [..] as a character class)"""
@@ -977,5 +1051,5 @@ class StatSiblings(Siblings):
     ]
 
 
-SUBS = [Definitions(), Regrouping(), Large(), LongLists(), Slope(), CriteriaNumeric(), CriteriaText(), CriteriaBrackets(),
+SUBS = [Definitions(), Regrouping(), Large(), LongLists(), Slope(), CriteriaNumeric(), CriteriaText(), CriteriaBrackets(), Scale(),
         ErrorItems(), AggWholeFloats(), StatSiblings()]
